@@ -357,6 +357,21 @@ namespace bluetoe {
             using char_t = characteristic< Options... >;
             static constexpr bool requires_encryption = characteristic_requires_encryption< char_t, Service, Server >::value;
 
+            static details::attribute_access_result access( attribute_access_arguments& args, std::size_t attribute_index )
+            {
+                // used by details::uuid_filter to find a value by a 128 bit attribute type
+                if ( args.type == attribute_access_type::compare_128bit_uuid )
+                {
+                    return uuid::is_128bit
+                        && !characteristic_or_service_uuid< typename Service::uuid, Options... >::auto_generated_uuid
+                        && std::equal( std::begin( uuid::bytes ), std::end( uuid::bytes ), args.buffer )
+                        ? attribute_access_result::uuid_equal
+                        : attribute_access_result::read_not_permitted;
+                }
+
+                return char_t::value_type::template characteristic_value_access< Server, ClientCharacteristicIndex, requires_encryption >( args, attribute_index );
+            }
+
             static const attribute attr;
         };
 
@@ -365,7 +380,7 @@ namespace bluetoe {
             uuid::is_128bit
                 ? bits( details::gatt_uuids::internal_128bit_uuid )
                 : uuid::as_16bit(),
-            &characteristic< Options... >::value_type::template characteristic_value_access< Server, ClientCharacteristicIndex, requires_encryption >
+            &generate_attribute< std::tuple< characteristic_value_declaration_parameter, AttrOptions... >, CCCDIndices, ClientCharacteristicIndex, Service, Server, Options... >::access
         };
 
         /*
